@@ -312,14 +312,16 @@ def judge_line(line: Any, version: Optional[str], got: Dict[str, Any], where: st
         return
     valid = [m for m in line if classify(m)[0] is not None]
     if len(line) == 0:
-        # the statement promises nothing about the reply to an empty array; nothing may be delivered
+        cnt[f"empty-batch/{mode}/" + ("error-written" if got["stdin"] else "silent")] = \
+            cnt.get(f"empty-batch/{mode}/" + ("error-written" if got["stdin"] else "silent"), 0) + 1
+    if len(line) == 0 and accept:
+        # accepting mode: the statement asks for no reply to an empty array; nothing may be delivered,
+        # stdin may stay silent or carry one -32600 error (JSON-RPC's answer to an empty array)
         if got["read"]:
             bad("empty-batch-delivered-something", f"empty batch put {got['read']} on the read stream")
         ok_reply = (not got["stdin"]) or (len(got["stdin"]) == 1 and _valid_rejection(got["stdin"][0]) is None)
         if not ok_reply:
             bad("empty-batch-bad-reply", f"stdin got {got['stdin']}")
-        cnt[f"empty-batch/{mode}/" + ("error-written" if got["stdin"] else "silent")] = \
-            cnt.get(f"empty-batch/{mode}/" + ("error-written" if got["stdin"] else "silent"), 0) + 1
         return
     if accept:
         if not _same(got["read"], valid):
@@ -340,8 +342,8 @@ def judge_line(line: Any, version: Optional[str], got: Dict[str, Any], where: st
             bad("rejected-batch-member-delivered",
                 f"batch {json.dumps(line)} at {version}: read stream {got['read']} notification stream {got['notes']}")
         if len(got["stdin"]) != 1:
-            bad("rejection-count", f"{len(got['stdin'])} lines written to the child for a rejected batch: {got['stdin']}",
-                lines=min(len(got["stdin"]), 2))
+            bad("rejection-count", f"{len(got['stdin'])} lines written to the child for a rejected batch {json.dumps(line)[:80]}: {got['stdin']}",
+                lines=min(len(got["stdin"]), 2), batch="empty" if not line else "non-empty")
         else:
             why = _valid_rejection(got["stdin"][0])
             if why:
@@ -641,7 +643,8 @@ def run(tier: str, only=None) -> core.Result:
         "the scripted process implements the subset of anyio.abc.Process the transport uses",
         "JSON-RPC 2.0 section 5: the rejection error may carry id null (the request id of a rejected batch cannot be determined); "
         "apart from that the line must pass the independent envelope reference",
-        "the reply to an empty batch [] is left open by the statement: nothing may be delivered; stdin may stay silent or carry one -32600 error (observed behaviour is recorded)",
+        "an empty batch [] is a batch array: at a version without batching it must be answered with exactly one -32600 error like any other batch; "
+        "at a version with batching nothing may be delivered and stdin may stay silent or carry one -32600 error (observed behaviour is recorded)",
         "delivery of single messages is C05's subject; here a single message must only never be answered as a batch (delivery is recorded)",
         "malformed version strings other than None/'' (recorded under part a, 'recorded_malformed') are outside the statement",
         "members with a wrong or missing 'jsonrpc' member or a non-integer error code are outside the invalid-item alphabet (accepted by the parser, pinned by the repository's suite)",
